@@ -8,13 +8,13 @@ PROP = "C20"
 MONITORS = ["transpose", "theory"]
 EXHAUSTIVE = True
 INSITU = {"k": "music_theory or transpose or tokenisation"}
-RULE = ("complete enumeration at run time under the contracts: 15 keys x intervals -36..36 (returns a Key, tonic and scale "
+RULE = ("complete enumeration at run time under the contracts: 15 keys x intervals -36..36 and all residues beyond +-96, +-120, +-132, +-240, +-1200, +-65532 (returns a Key, tonic and scale "
         "shifted mod 12), all 15 x 73 x 73 composition pairs (additivity), every key's note set is a major scale on its "
         "tonic, all 128 x 128 pitch pairs (distance range / congruence / from_distance), get_position for 0..127. Every "
         "domain element is a distinct case; all are non-trivial. The key / scale and circle-of-fifths enumerations are repeated in "
         "a process that has used the tables first (key guessing, transposition of sequences and bars with keys, bar splitting, token annotation).")
 PLAN = {"quick": {"cases": 0, "jobs": 2, "timeout": 600}, "thorough": {"cases": 0, "jobs": 4, "timeout": 1200}}
-FLOORS = {"transpose_key.returns_key.armed": 1095, "cof.distance_range.armed": 16384, "cof.from_distance.armed": 16384,
+FLOORS = {"transpose_key.returns_key.armed": 3000, "cof.distance_range.armed": 16384, "cof.from_distance.armed": 16384,
           "cof.position.armed": 128, "c20.compositions": 79935, "c20.major_scale": 30, "c20.table_consumers_exercised": 100}
 TONIC = {"C": 0, "G": 7, "D": 2, "A": 9, "E": 4, "B": 11, "F#": 6, "C#": 1, "F": 5, "Bb": 10, "Eb": 3, "Ab": 8, "Db": 1,
          "Gb": 6, "Cb": 11}
@@ -41,7 +41,7 @@ def _keys(ctx):
         tonic = sc[0].value
         if frozenset(x.value for x in sc) != orc.major(tonic) or len(sc) != 7 or tonic != TONIC[k.value]:
             fails.append(dict(fail("major_scale_on_tonic", (k.value, [x.value for x in sc])), case={"phase": "keys", "key": k.value}))
-        for iv in range(-36, 37):
+        for iv in list(range(-36, 37)) + [s_ * (m + r_) for m in (96, 120, 132, 240, 1200, 65532) for r_ in range(12) for s_ in (1, -1)]:
             r = Key.transpose_key(k, iv)      # judged by the contract (returns_key / tonic_shift / scale_shift)
             n += 1
             hashes.append(gen.chash(["tk", k.value, iv]))
